@@ -196,7 +196,10 @@ impl Parser {
             parse_errors: parse_errors.clone(),
         }));
         let r = match prsr.start() {
-            Ok(t) => Ok(self.visit(t.deref())),
+            Ok(t) if parse_errors.borrow().is_empty() => Ok(self.visit(t.deref())),
+            // The tree contains error-recovery nodes the visitor cannot walk; the syntax
+            // errors collected by the listeners are reported below.
+            Ok(_) => Ok(IdedExpr::default()),
             Err(e) => Err(ParseError {
                 source: Some(Box::new(e)),
                 pos: (0, 0),
